@@ -80,7 +80,7 @@ def conformance(ctx, prop, kernels=None, max_per_kernel=None, collect=None, with
 
 # symbols CookLexer classifies (anything else would be lexed differently by the specification than by the library)
 KNOWN = set("abcdefghijklmnopqrstuvwxyzABCDEFGHIJKLMNOPQRSTUVWXYZ0123456789@#~{}()%|=>-:./*&?+[],!';_$<^` ") | {
-    "L2", "E2", "DEG", "E4", "TAB", "W2", "W3", "NBSP", "TSP", "P3", "QUOTE", "BS", "LF", "CR"}
+    "L2", "L3", "L4", "E2", "DEG", "E4", "TAB", "W2", "W3", "NBSP", "TSP", "P3", "QUOTE", "BS", "LF", "CR"}
 
 
 def documents(ctx, prop):
@@ -97,12 +97,18 @@ def documents(ctx, prop):
     for t in repo_corpus():
         for e in (allext, []):
             recs.append(dict(text=t["text"], ext=e, src="repo"))
+    # `---` lines at every position of small documents, with LF / CRLF / no final newline: the front matter split
+    from .p_parse import fence_corpus
+    import random
+    fences = fence_corpus(3)
+    fences = fences if len(fences) <= (2500 if quick else 20000) else random.Random(ctx.seed).sample(fences, 2500 if quick else 20000)
+    recs += [dict(text=f["text"], ext=allext, src="fences") for f in fences]
     pin = os.path.join(ctx.work, "pd_in.ndjson")
     pout = os.path.join(ctx.work, "pd_obs.ndjson")
     core.write_ndjson(pin, recs)
     core.run_harness(ctx, ["events", "--whole", "--in", pin, "--out", pout])
     obs = core.read_ndjson(pout)
-    keep = [x for x in obs if all(c in KNOWN for c in x["input"]) and len(x["input"]) <= 1500]
+    keep = [x for x in obs if all(c in KNOWN for c in x["input"]) and len(x["input"]) <= 3200]
     skipped = len(obs) - len(keep)
     pk = os.path.join(ctx.work, "pd_keep.ndjson")
     core.write_ndjson(pk, keep)
@@ -112,14 +118,16 @@ def documents(ctx, prop):
         for c in names:
             ctx.violation(f"parser:{c}", f"{prop} clause {c} (parser model on a whole document, {x['src']}): {text_of(x)[:300]!r} ext {sorted(x['ext'])}: "
                           f"observed {json.dumps(x['obs'])[:600]}"[:1500],
-                          dict(kind="parser", clause=c, input=x["input"], ext=x["ext"], osm=x["osm"], base=x["base"]))
+                          dict(kind="parser", clause=c, input=x["input"], ext=x["ext"], osm=True, whole=True))
     for line, names in notes[:3]:
         x = keep[line - 1]
         ctx.notes.append(f"parser drift (document, {x['src']}): {text_of(x)[:200]!r}")
     if notes:
         ctx.drift_note("ParserExactlyAsSpecified(documents)", len(notes))
     ctx.extra["parser_model_documents"] = dict(judged=nrec, skipped_for_unclassified_characters_or_length=skipped, drift=len(notes),
-                                               sources=dict(cookdoc=sum(1 for x in keep if x["src"] == "cookdoc"), repo=sum(1 for x in keep if x["src"] == "repo")))
+                                               sources=dict(cookdoc=sum(1 for x in keep if x["src"] == "cookdoc"), repo=sum(1 for x in keep if x["src"] == "repo"),
+                                                            fences=sum(1 for x in keep if x["src"] == "fences")),
+                                               with_front_matter=sum(1 for x in keep if x["obs"]["evs"] and x["obs"]["evs"][0]["k"] == "FrontMatter"))
     return nrec
 
 
@@ -129,10 +137,8 @@ def replay(ctx, case, prop):
     pin = os.path.join(ctx.work, "pp_in.ndjson")
     pout = os.path.join(ctx.work, "pp_obs.ndjson")
     # no `evs` in the record: the judge computes them from the input
-    if "base" in c:      # a whole document: the front matter that was cut off is replaced by an empty one of the same length
-        b = c["base"]
-        pad = "" if b < 8 else "---\n" + ("#" * (b - 9) + "\n" if b >= 9 else "") + "---\n"
-        core.write_ndjson(pin, [dict(text=[pad] + list(c["input"]), ext=c["ext"])])
+    if c.get("whole"):
+        core.write_ndjson(pin, [dict(text=list(c["input"]), ext=c["ext"])])
         core.run_harness(ctx, ["events", "--whole", "--in", pin, "--out", pout])
     else:
         core.write_ndjson(pin, [dict(input=c["input"], ext=c["ext"], osm=c["osm"])])
